@@ -13,7 +13,7 @@ META = {
                     'registers are only generated for 4-byte int and float parameters'],
     'floors': {'encodings_matched': 300, 'decoded_equal': 300, 'reencoded_equal': 300, 'expected_diagnostics': 30, 'param_kinds': 12},
 }
-SIZES = {'quick': 1500, 'thorough': 40000}
+SIZES = {'quick': 4500, 'thorough': 40000}
 OPC = 900
 INT_REGS = [10000, 10001, 10002, 10003]
 FLOAT_REGS = [10004, 10005, 10006, 10007]
